@@ -121,19 +121,37 @@ def logvariable_types(c):
 PERIOD_SEGMENTS = ['p < 0', '0 <= p < 8', '8 <= p < 16', '16 <= p < 2048', '2048 <= p < 4096', '4096 <= p', 'is_nan(p)']
 
 
-@contract('C05', 'logconfig.period.float', [LOG + ':LogConfig.__init__'],
-          clause='the period field (10 ms units) is in the accepted range 1..254 iff the period is between 10 ms and 2.55 s (excl.), '
-                 'for every double (ints below 2**53 divide like the double of the same value); the case split on the magnitude of p is exhaustive')
-def period_float(c):
-    p = c.float('p')
-    c.require(c.choice('segment', PERIOD_SEGMENTS))
-    c.call(c.cls(LOG + ':LogConfig'), 'blk', p)
-    c.ensure('constructed-unless-nan-or-inf', 'iff(raised is not None, is_nan(p) or is_inf(p))')
-    if c.get('raised') is None:
-        c.let('conf', c.get('result'))
-        c.ensure('in-range-iff-10ms-to-2.55s', 'iff(0 < conf.period < 255, 10 <= p < 2550)')
-        c.ensure('fresh-state', 'conf.added is False and conf.started is False and conf.valid is False and not conf.pending and '
-                 'conf.variables == [] and conf.default_fetch_as == [] and conf.period_in_ms == p')
+def _period_float(label, segments, **opts):
+    @contract('C05', 'logconfig.period.%s' % label, [LOG + ':LogConfig.__init__'],
+              clause='the period field (10 ms units) is in the accepted range 1..254 iff the period is between 10 ms and 2.55 s (excl.), '
+                     'in IEEE double arithmetic (ints below 2**53 divide like the double of the same value); cases: %s' % (segments,), **opts)
+    def k(c):
+        p = c.float('p')
+        c.require(c.choice('segment', segments))
+        c.call(c.cls(LOG + ':LogConfig'), 'blk', p)
+        c.ensure('constructed-unless-nan-or-inf', 'iff(raised is not None, is_nan(p) or is_inf(p))')
+        if c.get('raised') is None:
+            c.let('conf', c.get('result'))
+            c.ensure('in-range-iff-10ms-to-2.55s', 'iff(0 < conf.period < 255, 10 <= p < 2550)')
+            c.ensure('fresh-state', 'conf.added is False and conf.started is False and conf.valid is False and not conf.pending and '
+                     'conf.variables == [] and conf.default_fetch_as == [] and conf.period_in_ms == p')
+    return k
+
+
+# the two binades that contain the limits 10 ms and 2550 ms (where rounding of p / 10 could matter) are decided in double arithmetic
+# in the quick tier; every double (exhaustive case split; division bit-blasting needs ~10 s per case) in the thorough tier; all reals below
+_period_float('double.near-limits', ['8 <= p < 16', '2048 <= p < 4096'], bounded='doubles in [8, 16) and [2048, 4096)')
+_period_float('double.all', PERIOD_SEGMENTS, thorough_only=True)
+
+
+@contract('C05', 'logconfig.period.real', [LOG + ':LogConfig.__init__'], float_mode='R',
+          clause='the period field is in the accepted range 1..254 iff 10 ms <= period < 2.55 s, for every real period (float mode R)')
+def period_real(c):
+    c.float('p')
+    c.call(c.cls(LOG + ':LogConfig'), 'blk', c.get('p'))
+    c.ensure('constructed', 'raised is None')
+    c.let('conf', c.get('result'))
+    c.ensure('in-range-iff-10ms-to-2.55s', 'iff(0 < conf.period < 255, 10 <= p < 2550)')
 
 
 @contract('C05', 'logconfig.period.int', [LOG + ':LogConfig.__init__'], float_mode='R',
@@ -247,7 +265,7 @@ for _label, _types in (('n0', []),
     _typ = ['explicit', 'from-table', 'mixed'] if _n else ['explicit']
     if _n >= 13:        # one contract (= one process) per combination for the long lists
         for _t in _typ:
-            for _m in (_miss if _n >= 26 else [_miss]):
+            for _m in (['none', _n - 1] if _n >= 26 else [_miss]):
                 _ml = _m if isinstance(_m, list) else [_m]
                 _add_config('%s.%s%s' % (_label, _t, '' if len(_ml) > 1 else '.missing-%s' % _ml[0]), _types,
                             _B % (_n, _types, size_of(_types), _ml, _t), [_t], _ml)
@@ -330,6 +348,9 @@ def type_pattern(n, budget=MAX_PAYLOAD):
     return out
 
 
+FROM_TABLE_TOO = (1, 2, 9, 10, 18, 19, 26)        # list lengths for which the table-typed way of configuring is explored as well
+
+
 def _create(n):
     types = type_pattern(n)
 
@@ -340,7 +361,7 @@ def _create(n):
     def k(c):
         names = names_for(n)
         table = list(zip(names, types))
-        typing = c.choice('typing', ['explicit', 'from-table'] if n else ['explicit'])
+        typing = c.choice('typing', ['explicit', 'from-table'] if n in FROM_TABLE_TOO else ['explicit'])
         variables = table if typing == 'explicit' else [(nm, None) for nm in names]
         cf, log, conf = added_config(c, variables, table, period=c.int('period', 1, 254))
         c.call((conf, 'start'))
@@ -351,7 +372,7 @@ def _create(n):
     return k
 
 
-for _n in range(0, 27):
+for _n in range(26, -1, -1):       # longest first (scheduling)
     _create(_n)
 
 
